@@ -910,7 +910,7 @@ var tcols = []tcol{
 
 var typeExprs = []string{
 	"a", "b", "c", "d", "e", "f", "g", "h", "u",
-	"a + 1", "a + b", "a * a", "b * b", "c + c", "c * 2", "d + 1", "a - b", "h - 1", "-a", "-b", "-c", "-e",
+	"-u", "-d", "u + u", "b + u", "u * 2", "a + 1", "a + b", "a * a", "b * b", "c + c", "c * 2", "d + 1", "a - b", "h - 1", "-a", "-b", "-c", "-e",
 	"e + 1", "e * e", "e / 3", "e + a", "a / 2", "b / 7", "h / h",
 	"a = b", "e > 1", "f = 'a'", "a IS NULL", "NOT a", "a AND b", "a IN (1, 2)", "f LIKE 'a%'", "a BETWEEN 0 AND 5",
 	"CASE WHEN a > 0 THEN a ELSE b END", "CASE WHEN a > 0 THEN a ELSE e END", "CASE WHEN a > 0 THEN f ELSE g END", "CASE WHEN a > 0 THEN a END",
